@@ -161,8 +161,8 @@ Proof.
       [| subst j; rewrite !byte_len_app; cbn [byte_len]; change (len_utf8 c_lt) with 1; change (len_utf8 c_gt) with 1; lia ].
     cbn [lift rbind].
     destruct (fix_prefix_unescape fx); [|exact I].
-    destruct (unescape_total (fix_esc_table fx) (fix_dangling fx) (fix_iw fx && iw) pe b') as [u Hu]. rewrite Hu. exact I.
-  - destruct (unescape_total (fix_esc_table fx) (fix_dangling fx) (fix_iw fx && iw) pe re) as [u Hu]. rewrite Hu. exact I.
+    destruct (unescape_total (fix_esc_table fx) (fix_esc_octal fx) (fix_dangling fx) (fix_iw fx && iw) pe b') as [u Hu]. rewrite Hu. exact I.
+  - destruct (unescape_total (fix_esc_table fx) (fix_esc_octal fx) (fix_dangling fx) (fix_iw fx && iw) pe re) as [u Hu]. rewrite Hu. exact I.
 Qed.
 
 Lemma starts_with_1' : forall c d s, starts_with [c; d] s = true -> exists s', s = c :: s'.
